@@ -7,6 +7,7 @@ package main
 import (
 	"bytes"
 	"fmt"
+	"sort"
 	"strings"
 	"time"
 
@@ -38,6 +39,7 @@ type engStats struct {
 	active map[[2]int]int
 	bodies []int
 	fails  []string
+	evals  []int // user interpreters (IUser id) in the order they ran
 }
 
 type bodyProbe struct {
@@ -186,6 +188,8 @@ func (b *engBuilder) build(t *Term) parsley.Parser {
 			s = s.Bind(interpreter.Object())
 		case "INil":
 			s = s.Bind(interpreter.Nil())
+		case "IUser":
+			s = s.Bind(userInterp(ip.Args[0].Int(), b.st))
 		default:
 			panic("bad interp " + ip.Head)
 		}
@@ -465,7 +469,76 @@ func engCmd(t *Term) string {
 	if t.Args[4].Int()&1 == 1 {
 		parts = append(parts, e.raw(false))
 	}
+	if t.Args[4].Int()&4 == 4 {
+		parts = append(parts, OT("Ev", e.eval(true), e.eval(false)))
+	}
 	return OT("Eng", parts...)
+}
+
+// ---- C04, flags bit 2: parsley.Evaluate ----
+
+// the user interpreter IUser id: evaluates all children in order with parsley.EvaluateNode, returns the first
+// error, else the slice of their values; records that it ran (engStats.evals)
+func userInterp(id int, st **engStats) ast.InterpreterFunc {
+	return ast.InterpreterFunc(func(userCtx interface{}, node parsley.NonTerminalNode) (interface{}, parsley.Error) {
+		(*st).evals = append((*st).evals, id)
+		vals := make([]interface{}, 0, len(node.Children()))
+		for _, c := range node.Children() {
+			v, err := parsley.EvaluateNode(userCtx, c)
+			if err != nil {
+				return nil, err
+			}
+			vals = append(vals, v)
+		}
+		return vals, nil
+	})
+}
+
+// an evaluated value: literals as node values are rendered (float64 / time.Duration have no lexeme here),
+// nil = n, []interface{} = L, map[string]interface{} = M sorted by key
+func renderEvValue(v interface{}) string {
+	switch x := v.(type) {
+	case []interface{}:
+		out := make([]string, len(x))
+		for i, y := range x {
+			out[i] = renderEvValue(y)
+		}
+		return OT("L", out...)
+	case map[string]interface{}:
+		keys := make([]string, 0, len(x))
+		for k := range x {
+			keys = append(keys, k)
+		}
+		sort.Strings(keys)
+		out := make([]string, len(keys))
+		for i, k := range keys {
+			out[i] = OL(OStr(k), renderEvValue(x[k]))
+		}
+		return OT("M", out...)
+	case float64:
+		return OT("fl")
+	case time.Duration:
+		return OT("du")
+	}
+	return renderValue(v, 0, 0)
+}
+
+// parsley.Evaluate with the Sentence root / the bare root: Val value | PErr | EErr text; a panic = OPanic
+func (e *engEnv) eval(sentence bool) string {
+	return guard(func() string {
+		ctx, _, root, _ := e.fresh(true)
+		if sentence {
+			root = combinator.Sentence(root)
+		}
+		v, err := parsley.Evaluate(ctx, root)
+		if err != nil {
+			if strings.HasPrefix(err.Error(), "failed to parse the input: ") {
+				return OT("PErr")
+			}
+			return OT("EErr", OStr(err.Error()))
+		}
+		return OT("Val", renderEvValue(v))
+	})
 }
 
 // C17 k n small big: Context.CallCount of parsley.Parse(Sentence(root)) for both cases; the small one twice
